@@ -201,7 +201,8 @@ OkInsert(T, c, t, s, k, a, d, out) ==
         ((c.kind = "lfu" \/ (c.kind = "lfuda" /\ ag = s)) => \A x \in g : minCnt(x))
   /\ ("C14" \in T) =>
         ((c.kind = "lfuda" /\ ag # s) => \A x \in g : minCnt(x))
-  /\ ("C15" \in T) => (c.kind = "rr" => (g \subseteq Live(s) \ {k} /\ Cardinality(g) <= 1))
+  /\ ("C15" \in T) => (c.kind = "rr" => (/\ g \subseteq Live(s) \ {k} /\ Cardinality(g) <= 1
+                                           /\ g # {} => (needSlot /\ full)))      \* only when it must
   /\ ("C16" \in T) => ((c.kind \in TtlCaches /\ needSlot /\ full /\ sur >= 1) => g = {})
 
 InsertCands(c, s, k) ==
